@@ -104,8 +104,16 @@ def _worker(task):
       try:
         status, failures, result, exc = time_limited(CASE_BUDGET_S, evaluate, contract, args)
       except CaseTimeout:
-        status, result, exc = "ok", None, None
-        failures = [("terminates", "no result after %d s (the real code does not return)" % CASE_BUDGET_S)]
+        # a time budget says "slow", not "never": confirmed with five times the budget before it
+        # is reported (a loaded machine is slow without hanging)
+        try:
+          if out.get("confirmed_hangs", 0) >= 1: raise CaseTimeout()   # one confirmation per worker
+          status, failures, result, exc = time_limited(5 * CASE_BUDGET_S, evaluate, contract, args)
+          out["slow_cases"] = out.get("slow_cases", 0) + 1
+        except CaseTimeout:
+          out["confirmed_hangs"] = out.get("confirmed_hangs", 0) + 1
+          status, result, exc = "ok", None, None
+          failures = [("terminates", "no result after %d s (the real code does not return)" % CASE_BUDGET_S)]
       if status == "skipped":
         out["skipped"] += 1
         continue
